@@ -4,7 +4,10 @@
           validate raised.  Part (i): `conforms` agrees with jsonschema's accept / reject.  Part (ii): the raised record
           satisfies wf_verr, points at the sub-value it names, and process_error of the model yields the observed error
           class and exposed attributes (message: non-emptiness only).
-   CProc: process_error called directly on a hand-built (possibly malformed) ValidationError. *)
+   CProc: process_error called directly on a hand-built (possibly malformed) ValidationError.
+   pmo : the oracle table of patternProperties matching, one row (sorted patterns, key, re.search("|".join(patterns in
+         the schema's order), key) is not None) per pattern list of the schema / of a raised record and per object key
+         of the value; rows for single patterns [p] serve the keyword patternProperties itself. *)
 From Coq Require Import List ZArith NArith QArith Bool Arith.
 From LV Require Import Model.Schema.
 Import ListNotations.
@@ -46,18 +49,28 @@ Definition obs_match (o : outcome) (ob : obs) : bool :=
 Definition rx_of (tbl : list (N * str * bool)) (rx : N) (s : str) : bool :=
   existsb (fun t => match t with (r, s', b) => N.eqb r rx && str_eqb s s' && b end) tbl.
 
+Fixpoint strs_eqb (a b : list str) : bool :=
+  match a, b with
+  | [], [] => true
+  | x :: a', y :: b' => str_eqb x y && strs_eqb a' b'
+  | _, _ => false
+  end.
+Definition pm_of (tbl : list (list str * str * bool)) (pats : list str) (k : str) : bool :=
+  existsb (fun t => match t with (ps, k', b) => strs_eqb ps pats && str_eqb k k' && b end) tbl.
+
 Inductive case :=
-| CVal (v : json) (s : schema) (rxo : list (N * str * bool)) (res : option (verr * list pathpart * obs))
-| CProc (e : verr) (o : obs).
+| CVal (v : json) (s : schema) (rxo : list (N * str * bool)) (pmo : list (list str * str * bool))
+       (res : option (verr * list pathpart * obs))
+| CProc (e : verr) (pmo : list (list str * str * bool)) (o : obs).
 
 Definition is_lib (o : outcome) : bool := match o with Lib _ => true | Raw _ => false end.
 
 Definition check (c : case) : bool :=
   match c with
-  | CVal v s rxo None => conforms (rx_of rxo) s v
-  | CVal v s rxo (Some (e, abspath, o)) =>
-      negb (conforms (rx_of rxo) s v) &&
-      wf_verr e &&
+  | CVal v s rxo pmo None => conforms (rx_of rxo) (pm_of pmo) s v
+  | CVal v s rxo pmo (Some (e, abspath, o)) =>
+      negb (conforms (rx_of rxo) (pm_of pmo) s v) &&
+      wf_verr (pm_of pmo) e &&
       (* jsonschema reports a `false` sub-schema (validator None, kind VOther) with an empty path: no path check there *)
       match v_kind e with
       | VOther => true
@@ -65,7 +78,7 @@ Definition check (c : case) : bool :=
       end &&
       is_lib (process_error e) &&
       obs_match (process_error e) o
-  | CProc e o => obs_match (process_error e) o && implb (wf_verr e) (is_lib (process_error e))
+  | CProc e pmo o => obs_match (process_error e) o && implb (wf_verr (pm_of pmo) e) (is_lib (process_error e))
   end.
 
 (* which branch of the model a case exercises (for the measured distribution) *)
